@@ -6,6 +6,11 @@ import r_state
 import r_fwd
 
 PROPS = {
+    "C12": {
+        "rules": [r_fwd.rule_each, r_ovf.rule_zero],
+        "floors": {},
+        "explanation": "tbd",
+    },
     "C13": {
         "rules": [r_fwd.rule_fwd],
         "floors": {},
